@@ -16,7 +16,7 @@ import traceback
 from .index import AnalysisError
 
 VERIF = os.path.dirname(os.path.dirname(os.path.abspath(__file__)))
-EVIDENCE_DIR = os.path.join(VERIF, "evidence")
+EVIDENCE_DIR = os.environ.get("VERIF_EVIDENCE_DIR") or os.path.join(VERIF, "evidence")
 TABLES_DIR = os.path.join(VERIF, "tables")
 KNOWN_FINDINGS = os.path.join(VERIF, "known_findings.json")
 
